@@ -14,6 +14,7 @@ TABLE_OBLIGATIONS = [
     (P + "no_nested_locking", "no virtual method calls another locking method while holding a guard"),
     (P + "hooks_at_linearization_points", "the hook calls in the source sit at the model's linearisation points"),
     (P + "process_variant_same", "mem_cache<process_settings> has the same lock table"),
+    (P + "refs_exclusive", "refs is accessed only by add_ref/del_ref, always under the exclusive lock; no cache operation touches it"),
     (P + "hash_map_lookup_read_only", "private/hash_map.h: the bodies of hash_map::find/end (through basic_map::find, find_in_range, get) write nothing but local variables (the access table classifies hash_map calls from their bodies)"),
 ]
 MODEL_OBLIGATIONS = [
@@ -22,13 +23,17 @@ MODEL_OBLIGATIONS = [
     (P + "judge_is_predicate", "the executable judge used on recorded histories = Spec.LinearizedBy"),
     (P + "history_well_formed", "operation ids of a run's history are unique"),
     (P + "no_undefined_result", "no operation returns through a dangling iterator / without result"),
-    (P + "fetch_hit_is_latest_store", "a completed fetch that hit returned value/triggers/deadline/generation of one store of that key, not followed in the linearization by any invalidating operation (no torn value, no value of another key)"),
-    (P + "no_value_after_trigger_rise", "a hit never returns a value stored (completed) before a rise of one of its triggers began, if that rise completed before the fetch began"),
+    (P + "refs_counts_handles", "in every reachable configuration refs = initial + add_refs - del_refs that took effect"),
+    (P + "del_ref_true_iff_last", "a completed del_ref returned true iff at its linearization point handles taken = handles dropped (this one included): the object is destroyed only by the last handle"),
     (P + "deadlock_free", "reachable, not everything finished => some thread can move"),
     (P + "step_decreases_measure", "every effective step decreases a natural-number measure"),
     (P + "every_op_completes", "from every reachable configuration: some schedule completes every operation; and every maximal run has completed all of them"),
 ]
-OBLIGATIONS = TABLE_OBLIGATIONS + MODEL_OBLIGATIONS
+FETCH_OBLIGATIONS = [
+    (P + "fetch_hit_is_latest_store", "a completed fetch that hit returned value/triggers/deadline/generation of one store of that key, not followed in the linearization by any invalidating operation (no torn value, no value of another key)"),
+    (P + "no_value_after_trigger_rise", "a hit never returns a value stored (completed) before a rise of one of its triggers began, if that rise completed before the fetch began"),
+]
+OBLIGATIONS = TABLE_OBLIGATIONS + MODEL_OBLIGATIONS + FETCH_OBLIGATIONS
 
 KEYS = ["6b30", "6b31", "6b32", "6b33", "6b34", "6b35"]          # k0..k5
 TRIGS = ["7430", "7431", "7432"]                                   # t0..t2
@@ -116,6 +121,44 @@ def gen_collision_case(rng, nthreads, nops, limit, mixed):
     return lines
 
 
+def gen_handle_case(rng, nthreads, ngroups, nkeys):
+    """what concurrent requests do with the cache handle (cache_interface copies it per request): every thread
+    repeatedly copies a handle (add_ref), uses the cache, drops the handle (del_ref) — while main owns one.
+    Some groups are empty (copy; drop) so that add_ref/del_ref of different threads meet head-on."""
+    keys = KEYS[:nkeys]
+    lines = []
+    for t in range(nthreads):
+        i = 0
+        for _ in range(ngroups):
+            lines.append(f"T {t} addref")
+            for _ in range(rng.choice((0, 0, 1, 1, 2))):
+                k = rng.choice(keys)
+                if rng.random() < 0.6:
+                    lines.append(f"T {t} fetch 1000 {k}")
+                else:
+                    lines.append(f"T {t} store 1000 {k} {gen_value(rng, t, i, False)} {rng.choice(('-', '7430'))} 5000 -")
+                i += 1
+            lines.append(f"T {t} delref")
+    lines += ["X stats"] + [f"X fetch 1000 {k}" for k in keys]
+    return lines
+
+
+def is_handle(r):
+    return r["op"] in ("addref", "delref")
+
+
+def handle_verdict(recs, nthreads):
+    """the reference count object, judged by counting: main owns a handle throughout, so no del_ref of a thread may
+    report `last`, and main's final del_ref (tid = nthreads, last record) must"""
+    for r in recs:
+        if r["op"] == "delref" and r["result"] != "raw":
+            want = "dropped 1" if r["tid"] == nthreads else "dropped 0"
+            if r["result"] != want:
+                return f"del_ref of thread {r['tid']} (operation {r['idx']}) returned {r['result']!r}, expected {want!r}: " + \
+                       ("the cache would be destroyed while handles exist" if want == "dropped 0" else "reference count != number of live handles")
+    return None
+
+
 def epilogue_ops(limit, nkeys):
     """single-threaded tail run by thread 0 after everything else is irrelevant to concurrency; it makes the final
     state observable: fetch every key (values, triggers), stats; with a limit, stores of fresh keys evict in LRU order,
@@ -146,6 +189,12 @@ def build_cases(c):
         lines = gen_collision_case(rng, nt, rng.choice((40, 150, 400, 800)), rng.choice((0, 0, 20)), rng.random() < 0.25)
         cases.append({"name": f"collide{i}", "nthreads": nt, "limit": 0, "spin": 0, "flags": 1, "lines": lines, "nops": len(lines)})
         cases[-1]["limit"] = rng.choice((0, 0, 20))
+    for i in range(60 if thorough else 12):
+        nt = rng.choice((4, 4, 6, 8))
+        small = i % 4 == 0
+        lines = gen_handle_case(rng, nt, rng.choice((3, 5)) if small else rng.choice((60, 200, 500)), rng.choice((1, 2, 3)))
+        cases.append({"name": f"handles{i}", "nthreads": nt, "limit": rng.choice((0, 0, 3)), "spin": 0,
+                      "flags": 1 | (4 if i % 6 == 5 else 0), "lines": lines, "nops": len(lines)})
     for i in range(nsmall):
         add(f"small{i}", rng.choice((2, 2, 3, 4)), rng.randrange(2, 8), rng.choice((0, 0, 1, 2, 3)), rng.random() < 0.3,
             rng.choice((1, 2, 3)), rng.choice((0, 50, 400)), yield_=rng.random() < 0.3)
@@ -159,7 +208,7 @@ def build_cases(c):
 
 
 def harness_input(cs, flags=None):
-    f = cs["flags"] if flags is None else flags
+    f = cs["flags"] if flags is None else ((cs["flags"] & ~3) | flags)
     return [f"case {cs['nthreads']} {cs['limit']} {cs['spin']} {f}"] + cs["lines"] + ["run"]
 
 
@@ -225,7 +274,10 @@ def overlap_stats(recs):
 
 
 def judge_lines(cs, recs, fast, search=None):
-    ls = [f"new thread {cs['limit']}"]
+    # hook-order judge: cache operations only (add_ref/del_ref carry no hook; Props.refs_exclusive: no cache
+    # operation touches refs); search: the whole history, main's handle = initial refs 1
+    ls = [f"new thread {cs['limit']} 1"]
+    recs = [r for r in recs if r["result"] != "raw" and (search or not is_handle(r))]
     for r in recs:
         ls.append(f"R {r['tid']} {r['idx']} {r['inv']} {r['res']} {'-' if r['lin'] is None else r['lin']} {r['result']} ; {r['op']}")
     ls.append(f"endsearch {search}" if search else ("endfast" if fast else "end"))
@@ -257,8 +309,6 @@ def run_cases(c, hbin, model, cases, label, env=None, flags=None, judge=True, ti
                          "ThreadSanitizer report" if tsan else "sanitizer abort / crash of the real code") + f" in stream {label}",
                         {"case": bad["name"], "case_lines": harness_input(bad, flags), "stderr": err[-6000:], "rc": rc,
                          "partial_output": partial[-20:]})
-            if tsan and len(done) == len(cases) - idx:
-                break
             idx += len(done) + 1
             if len(c.violations) > 5:
                 break
@@ -276,7 +326,7 @@ def run_cases(c, hbin, model, cases, label, env=None, flags=None, judge=True, ti
         pos = len(jl) + len(ls) - 1
         jl += ls
         spos = None
-        if len(recs) <= SEARCH_MAX_OPS and all(r["res"] for r in recs):
+        if len(recs) <= SEARCH_MAX_OPS and all(r["res"] for r in recs) and not any(r["result"] == "raw" for r in recs):
             ls2 = judge_lines(cs, recs, False, SEARCH_BUDGET)
             spos = len(jl) + len(ls2) - 1
             jl += ls2
@@ -293,7 +343,17 @@ def run_cases(c, hbin, model, cases, label, env=None, flags=None, judge=True, ti
             sc["histories"] += 1
             sc["linearization_found" if sverdict == "1" else ("budget_exhausted" if sverdict.startswith("?") else "none_exists")] += 1
         c.traces_validated += 1
-        pr = py_realtime(recs)
+        pr = py_realtime([r for r in recs if not is_handle(r)])
+        hv = handle_verdict(recs, cs["nthreads"])
+        hc = c.extra_cov.setdefault("handle_operations", {"add_ref": 0, "del_ref": 0, "overlapping_handle_op_pairs": 0})
+        hops = sorted([r for r in recs if is_handle(r) and r["res"]], key=lambda r: r["inv"])
+        hc["add_ref"] += sum(1 for r in hops if r["op"] == "addref")
+        hc["del_ref"] += sum(1 for r in hops if r["op"] == "delref")
+        act = []
+        for r in hops:
+            act = [a for a in act if a["res"] > r["inv"]]
+            hc["overlapping_handle_op_pairs"] += sum(1 for a in act if a["tid"] != r["tid"])
+            act.append(r)
         ov, hm, sw = overlap_stats(recs)
         tot = c.extra_cov.setdefault("concurrency_measured", {"overlapping_pairs": 0, "fetch_overlapping_mutator_pairs": 0,
                                                               "thread_switches_in_linearization": 0, "histories": 0, "operations": 0})
@@ -307,6 +367,8 @@ def run_cases(c, hbin, model, cases, label, env=None, flags=None, judge=True, ti
         bad = None
         if errs:
             bad = "harness anomaly: " + errs[0]
+        elif hv:
+            bad = hv
         elif verdict != "1":
             bad = "recorded history is not linearized by the hook order: " + verdict + \
                   {None: "", "1": " [some other order linearizes it: the effect did not happen where the hook says]"}.get(
@@ -337,6 +399,7 @@ def racy : List (Method × Access × Method × Access) := allMethods.flatMap fun
 #eval IO.println s!"hooks_at_linearization_points: {if Gen.hooks == linPoints then "holds" else "FALSE"} {repr Gen.hooks}"
 #eval IO.println s!"no_nested_locking: {if Gen.nested.all (fun x => x.2.2.isEmpty) then "holds" else "FALSE"}"
 #eval IO.println s!"hash_map_lookup_read_only: {if Gen.hashMapCalls.all (fun x => !(x.1 == "find" || x.1 == "end" || x.1 == "begin" || x.1 == "size") || !x.2) then "holds" else "FALSE"} {repr Gen.hashMapCalls}"
+#eval IO.println s!"refs_exclusive: {if allMethods.all (fun m => (Gen.accesses m).all fun a => a.field != .refs || exclusiveOk a.held) then "holds" else "FALSE"} {repr ((Gen.accesses .addRef) ++ (Gen.accesses .delRef))}"
 #eval IO.println s!"process_variant_same: {Gen.processVariantSame}"
 #eval IO.println s!"prog: {repr (allMethods.map fun m => (m, Gen.prog m))}"
 """
@@ -391,14 +454,17 @@ def main():
     p1 = c.prove(["Cppcms.C09.TableProps"], TABLE_OBLIGATIONS, exe="c09_model")
     ob1 = c.obligations
     p2 = c.prove(["Cppcms.C09.Props"], MODEL_OBLIGATIONS)
-    c.obligations = ob1 + c.obligations
+    ob2 = c.obligations
+    # the two corollaries that go through C07's theorems (the only part importing Cppcms.C07.Props)
+    p3 = c.prove(["Cppcms.C09.FetchProps"], FETCH_OBLIGATIONS)
+    c.obligations = ob1 + ob2 + c.obligations
     proved = len(c.discharged) == len(c.obligations) and not c.broken
     if not proved:
         diag = table_diagnostics(c)
         if c.broken:
             c.broken[0]["detail"] = "TABLE DIAGNOSTICS: " + " | ".join(diag)[:3000] + "\n" + c.broken[0]["detail"]
     if c.tier == "thorough" and proved:
-        c.leanchecker(["Cppcms.C09.TableProps", "Cppcms.C09.Props"])
+        c.leanchecker(["Cppcms.C09.TableProps", "Cppcms.C09.Props", "Cppcms.C09.FetchProps"])
     model = c.model_exe()
     ok_impl = c.impl_build()
     hbin = c.harness("c09") if ok_impl else None
@@ -426,6 +492,8 @@ def main():
         for cs in cases:
             for l in cs["lines"]:
                 k = l.split()[2] if l.startswith("T ") else l.split()[1]
+                if k in ("addref", "delref"):
+                    continue
                 if l.startswith("T ") and cs["name"].startswith("collide"):
                     c.extra_cov.setdefault("collision_stream_ops", 0)
                     c.extra_cov["collision_stream_ops"] += 1
@@ -438,10 +506,10 @@ def main():
             if c.impl_build(tsan=True):
                 tbin = c.harness("c09", tsan=True)
                 if tbin:
-                    env = {"TSAN_OPTIONS": "halt_on_error=0:exitcode=66:second_deadlock_stack=1", "C09_WATCHDOG": "180"}
+                    env = {"TSAN_OPTIONS": "halt_on_error=1:exitcode=66:second_deadlock_stack=1", "C09_WATCHDOG": "180"}
                     nt, nb = (900, 30) if c.tier == "thorough" else (150, 6)
-                    coll = [cs for cs in cases if cs["name"].startswith(("collide", "corpus"))]
-                    rest = [cs for cs in cases if not cs["name"].startswith(("collide", "corpus"))]
+                    coll = [cs for cs in cases if cs["name"].startswith(("collide", "corpus", "handles"))]
+                    rest = [cs for cs in cases if not cs["name"].startswith(("collide", "corpus", "handles"))]
                     sub = coll + [cs for cs in rest if cs["nops"] <= 400][:nt] + [cs for cs in rest if cs["nops"] > 400][:nb]
                     # (a) nothing of the harness synchronises the threads: hook not registered, no stamps
                     run_cases(c, tbin, model, sub, "tsan-pure", env=env, flags=0, judge=False)
